@@ -37,7 +37,7 @@ class Dsl:
         self.env: dict[str, sp.Expr] = {p: sp.Symbol(p, real=True) for p in f.positional_params()}
         self.ret: sp.Expr | None = None
         self.literal_floats: list[float] = []
-        self.run(f.body)
+        self.run(f.explicit_body)
 
     def run(self, stmts):
         for st in stmts:
